@@ -510,6 +510,7 @@ def run_c09(argv):
         if label in ("ions", "upper"):
             chk.sample({"network": label, "macros": ref_alias})
     cross_process_order(chk, descs, tier)
+    reexport_summary_check(chk, rng)
     model_c09(chk, nets)
     return chk.finish()
 
@@ -610,6 +611,43 @@ def summary_check(chk, label, names, cfgname, ref_alias):
         chk.violation({"kind": "artefacts-differ", "pair": "summary-names/summary-aliases"},
                       f"[summary] slot {k}: list_of_species has {got[k]!r}, list_of_species_alias has {summ['list_of_species_alias'][k]!r} "
                       f"(= {want[k]!r})", input={"network": label, "list_of_species": got[:20], "list_of_species_alias": list(summ["list_of_species_alias"])[:20]})
+
+
+def reexport_summary_check(chk, rng):
+    """`Network.export` writes sources, network file *and* the project configuration with its [summary]: exporting an edited
+    network again into the same project directory has to leave a summary that describes the edited network - the same counts and
+    the same slot order as the index macros written next to it."""
+    import tomlkit
+    from naunet.network import Network
+    from naunet.reactions import Reaction
+    from naunet.reactiontype import ReactionType as RT
+    configure(CFGS["default"])
+    R = lambda re_, pr_, i: Reaction(re_, pr_, alpha=1e-10, reaction_type=RT.GAS_TWOBODY, idxfromfile=i)
+    d = chk.scratch / "reexport"
+    d.mkdir(parents=True, exist_ok=True)
+    try:
+        with silenced():
+            net = Network([R(["H", "H"], ["H2"], 1), R(["H2", "O"], ["OH", "H"], 2), R(["OH", "H"], ["H2O"], 3)],
+                          elements=list(DEFAULT_ELEMENTS), pseudo_elements=list(DEFAULT_PSEUDO))
+            net.export("proj", solver="cvode", method="dense", device="cpu", prefix=str(d), overwrite=True)
+            net.add_reaction(R(["C", "O"], ["CO"], 4))
+            net.add_reaction(R(["CO", "OH"], ["CO2", "H"], 5))
+            net.export("proj", solver="cvode", method="dense", device="cpu", prefix=str(d), overwrite=True)
+    except Exception as e:
+        chk.hist["reexport-refused:" + type(e).__name__] += 1
+        return
+    chk.count(("reexport-summary",), nontrivial=True)
+    chk.hist["reexport-summary"] += 1
+    summ = tomlkit.loads((d / "proj" / "naunet_config.toml").read_text())["summary"]
+    mac = cparse.defines((d / "proj" / "include" / "naunet_macros.h").read_text())
+    idx = [k for k in mac if k.startswith("IDX_") and not k.startswith("IDX_ELEM_") and k != "IDX_TGAS"]
+    if ["IDX_" + a for a in summ["list_of_species_alias"]] != idx or summ["num_of_species"] != len(idx) or \
+            summ["num_of_reactions"] != int(mac["NREACTIONS"]) or summ["num_of_elements"] != int(mac["NELEMENTS"]):
+        chk.violation({"kind": "artefacts-differ", "pair": "macros/summary-after-re-export"},
+                      f"after export, two more reactions and a second export into the same directory the [summary] says "
+                      f"{summ['num_of_species']} species / {summ['num_of_reactions']} reactions, the index macros written next to it "
+                      f"{len(idx)} / {mac['NREACTIONS']}", input={"sequence": "export, add_reaction x2, export(overwrite=True)"},
+                      summary_alias=list(summ["list_of_species_alias"]), macros=idx)
 
 
 def model_c09(chk, nets):
